@@ -174,6 +174,7 @@ FamRelaxed(z) == {C4("relaxed", t, Var("v"), VD(t, FALSE, Null), [v |-> v], TRUE
 (* C05: value pools *)
 
 OutStrs == {Str("abc"), Str("42"), Str("1.5"), Str("4294967297"), Str("true"), Str("RED"), Str("BLUE"), Str(T1), Str("")}
+           \cup {Str(s) : s \in LenientTimes}
 Others == {[k |-> "other", s |-> "map"], [k |-> "other", s |-> "struct"], [k |-> "other", s |-> "chan"]}
 NilPtr == [k |-> "nilptr"]
 GLeaves == NumAllKinds \cup OutStrs \cup Bools \cup Syms \cup {Tim(T1), Null, NilPtr} \cup Others
@@ -190,7 +191,7 @@ GElems(b) ==
     [] b = "String" -> {Str("abc"), Num("i1", "int"), Bool(TRUE), Sym("RED"), [k |-> "other", s |-> "map"], Null, NilPtr}
     [] b = "Boolean" -> {Bool(TRUE), Num("i1", "int32"), Num("i1", "int"), Str("true"), Str("abc"), Null}
     [] b = "ID" -> {Str("abc"), Num("i42", "int"), Num("f1p5", "float64"), Null}
-    [] b = "Time" -> {Tim(T1), Str(T1), Str("abc"), Num("i42", "int64"), Null}
+    [] b = "Time" -> {Tim(T1), Str(T1), Str("abc"), Num("i42", "int64"), Null, Str("2021-03-04T5:06:07Z")}
     [] b = "Color" -> {Sym("RED"), Str("GREEN"), Sym("BLUE"), Str("BLUE"), Num("i1", "int"), Null}
 
 \* homogeneous element pools: Go element type -> values
